@@ -183,6 +183,7 @@ pub trait TrX: Trait {
     fn lzd_pop<'e, T: 'static, MS: MemBuilder>(_e: &Pop<'e, Self, MS>, _depth: u8) -> Option<T> { unreachable!() }
     fn lzd_remove<'e, T: 'static, MS: MemBuilder>(_e: &Remove<'e, Self, MS>, _depth: u8) -> Option<T> { unreachable!() }
     fn lzd_swap_remove<'e, T: 'static, MS: MemBuilder>(_e: &SwapRemove<'e, Self, MS>, _depth: u8) -> Option<T> { unreachable!() }
+    fn lz_splice<'e, MS: MemBuilder, M: MemBuilder, S: crate::exec_range::SpliceRun<Self, M>>(_refs: &'e [any_vec::element::ElementRef<'e, Self, MS>], _a: &mut AnyVec<Self, M>, _s: S) -> Vec<crate::exec_range::StepObs> { unreachable!() }
     fn lzc_element<'e, MS: MemBuilder>(_e: &Element<'e, Self, MS>, _depth: u8, _copies: u8) { unreachable!() }
     fn lzc_pop<'e, MS: MemBuilder>(_e: &Pop<'e, Self, MS>, _depth: u8, _copies: u8) { unreachable!() }
     fn lzc_remove<'e, MS: MemBuilder>(_e: &Remove<'e, Self, MS>, _depth: u8, _copies: u8) { unreachable!() }
@@ -208,6 +209,7 @@ macro_rules! trx_cloneable {
             fn lzd_pop<'e, T: 'static, MS: MemBuilder>(e: &Pop<'e, Self, MS>, depth: u8) -> Option<T> { lazy_downcast::<T, _>(e, depth) }
             fn lzd_remove<'e, T: 'static, MS: MemBuilder>(e: &Remove<'e, Self, MS>, depth: u8) -> Option<T> { lazy_downcast::<T, _>(e, depth) }
             fn lzd_swap_remove<'e, T: 'static, MS: MemBuilder>(e: &SwapRemove<'e, Self, MS>, depth: u8) -> Option<T> { lazy_downcast::<T, _>(e, depth) }
+            fn lz_splice<'e, MS: MemBuilder, M: MemBuilder, S: crate::exec_range::SpliceRun<Self, M>>(refs: &'e [any_vec::element::ElementRef<'e, Self, MS>], a: &mut AnyVec<Self, M>, s: S) -> Vec<crate::exec_range::StepObs> { crate::exec_range::lz_splice_impl(refs, a, s) }
             fn lzc_element<'e, MS: MemBuilder>(e: &Element<'e, Self, MS>, depth: u8, copies: u8) { lazy_create_drop(e, depth, copies) }
             fn lzc_pop<'e, MS: MemBuilder>(e: &Pop<'e, Self, MS>, depth: u8, copies: u8) { lazy_create_drop(e, depth, copies) }
             fn lzc_remove<'e, MS: MemBuilder>(e: &Remove<'e, Self, MS>, depth: u8, copies: u8) { lazy_create_drop(e, depth, copies) }
